@@ -1273,7 +1273,7 @@ func execDeleg(f []string) vlib.Res {
 	for z := range dm {
 		zones = append(zones, z)
 	}
-	sort.Strings(zones)
+	sort.Slice(zones, func(i, j int) bool { return strings.ToLower(zones[i]) < strings.ToLower(zones[j]) })
 	good := func(where string, a netip.Addr) {
 		if oLoopback(a) {
 			or = fail("deleg/"+where+"-holds-loopback", "%s", a)
